@@ -154,12 +154,26 @@ def main(tier):
                 variants.append((" -i %s", ["-i", "%s", str(a), str(bb)]))
             if pi % 3 == 2 or not quick:
                 variants.append((" (ymcw)", ["-i", "%Y-%m-%c-%wT%T", ymcw(a), ymcw(bb)]))
+            # the real-second count next to other specifiers of the same format (nanoseconds, a literal tail)
+            if pi % 4 == 0 or not quick:
+                variants.append((" %rS.%N", [iso(a), iso(bb)]))
+                variants.append((" x%rSy%Nz", [iso(a), iso(bb)]))
             for tag, args in variants:
-                p = core.run([ddiff] + args + ["-f", "%rS"], timeout=20)
+                fmt = {" %rS.%N": "%rS.%N", " x%rSy%Nz": "x%rSy%Nz"}.get(tag, "%rS")
+                p = core.run([ddiff] + args + ["-f", fmt], timeout=20)
                 nrun += 1
                 try:
-                    rv = int(p.stdout.strip())
-                except ValueError:
+                    o_ = p.stdout.strip()
+                    if fmt == "%rS.%N":
+                        o_, ns = o_.split(".")
+                        o_ = o_ if ns == "000000000" else "bad"
+                    elif fmt != "%rS":
+                        # a negative duration carries its sign in front of the whole output
+                        sg, body = ("-", o_[1:]) if o_.startswith("-") else ("", o_)
+                        o_, ns = body[1:-1].split("y")
+                        o_ = sg + o_ if ns == "000000000" and body[0] == "x" and body[-1] == "z" else "bad"
+                    rv = int(o_)
+                except (ValueError, IndexError):
                     rv = 2 ** 31 - 1
                 ev.append({"e": "RDiff", "a": ds(a), "b": ds(bb), "dd": bb // 86400 - a // 86400, "ds": bb % 86400 - a % 86400, "r": rv,
                            "A": args[-2], "B": args[-1], "nota": tag})
